@@ -374,6 +374,26 @@ def part_atomic(payload):
         part.nt(("atomic", name))
         for key, det in roundtrip(u, part, name):
             core.classify(known, part, key, det)
+        if float(u.base_offset) != 0.0:
+            # units with a zero point reached through arithmetic that leaves them what they are: factors of the bare / named
+            # dimensionless unit on either side, power one, a number times an array in that unit
+            import numpy as _np
+            from unyt import unyt_array
+
+            forms = [("Unit()*u", lambda: Unit() * u), ("u*Unit()", lambda: u * Unit()), ("Unit('dimensionless')*u", lambda: Unit("dimensionless") * u), ("u/Unit()", lambda: u / Unit()),
+                     ("u**1", lambda: u**1), ("(Unit()*u)*Unit()", lambda: (Unit() * u) * Unit()), ("(2.0*array).units", lambda: (2.0 * unyt_array([10.0, 20.0], u)).units),
+                     ("(array*2.0).units", lambda: (unyt_array([10.0, 20.0], u) * 2.0).units), ("(array/2.0).units", lambda: (unyt_array([10.0, 20.0], u) / 2.0).units),
+                     ("np.multiply(3.0, array).units", lambda: _np.multiply(3.0, unyt_array([10.0, 20.0], u)).units), ("(-array).units", lambda: (-unyt_array([10.0, 20.0], u)).units),
+                     ("u.copy()", lambda: u.copy()), ("Unit(u)", lambda: Unit(u))]
+            for fname, mk in forms:
+                try:
+                    x = mk()
+                except Exception:
+                    part.count("offset-unit arithmetic form refused")
+                    continue
+                part.nt(("offset-arith", name, fname))
+                for key, det in roundtrip(x, part, f"{fname} with u={name}"):
+                    core.classify(known, part, key + ":offset-unit-arithmetic:" + fname, det)
     return part
 
 
